@@ -66,10 +66,10 @@ CLAIMS = {
     },
     "C06": {
         "engine": "verus+kani",
-        "technique": K + " (mysql_common write_lenenc_int/str for all u64 / all lengths; byte-string and Option text encoders) + " + V + " (RowWriter text rows = concatenation of the cells' encodings, one packet per row; date/datetime/duration text encoders with interpreted format literals); integer/float text encoders and the mysql_common::Value text dispatch: bounded native stand-in (n2_text)",
+        "technique": K + " (mysql_common write_lenenc_int/str for all u64 / all lengths; byte-string and Option text encoders) + " + V + " (RowWriter text rows = concatenation of the cells' encodings, one packet per row; date/datetime/duration and the macro-generated integer/float text encoders with interpreted format literals); std Display itself and the mysql_common::Value text dispatch: bounded native stand-in (n2_text)",
         "design_ref": "DESIGN.md section 6 C06",
         "text": "Proved: length-encoded integers and strings are written exactly per protocol for every value/length; [u8]/Vec/&T text encoding == lenenc_str(bytes); None == 0xFB and never collides with a string's first byte; in text mode each write_col appends exactly the value's encoding and end_row ends exactly one packet holding the row.",
-        "note": "PARTIAL: the integer and float text encoders (macro-generated `format!(\"{}\", self)`) are NOT under contract (rule R10 not implemented; std Display is neither executable by CBMC nor readable by Verus). Date/datetime/duration text encoders ARE verified (U6) with the format literals interpreted into dec/dec_pad terms; std Display for integers (canonical decimal, zero padding) is assumed. str/String/Vec forwarding is bounded (2 bytes). The integer/float encoders and the myc::Value text dispatch are only CHECKED by the bounded native stand-in native/n2_text.rs (about 100000 values: boundaries, powers of 2 and 10 +-1, pseudo-random; decoded with an independent decoder) -- reported under bounded_checks, never as proved.",
+        "note": "The integer and float text encoders are macro-generated (`mysql_text_trivial!()`): the macro body is extracted (rule R10, parameterless arm only) and verified once for an abstract cell type whose std Display output is dec(value); `expect` anchors pin that every numeric impl invokes the macro. ASSUMED: std Display for integers is the canonical decimal numeral (and `{:0N}` zero padding); for f32/f64 that it is a decimal that parses back to the same value. These assumptions are CHECKED (not proved) by the bounded native stand-in native/n2_text.rs (about 100000 values: boundaries, powers of 2 and 10 +-1, pseudo-random; decoded with an independent decoder), which also covers the myc::Value text dispatch (not under contract). str/String/Vec forwarding is bounded (2 bytes).",
     },
     "C07": {
         "engine": "verus+kani",
